@@ -574,3 +574,448 @@ Proof.
   eexists. exists v. split; [reflexivity|]. split; [exact H1 | exact H2].
 Qed.
 End Roundtrip.
+
+(* ====================================================================================================
+   Object defaults that OMIT fields.  The instance then carries the nested class's own defaults (or None),
+   the coerced schema default carries the nested schema defaults (or no key at all): equal modulo
+   "absent == null", which is what the server sees (an explicit null and an absent key coerce alike for a
+   nullable field without default).  strip_nulls removes null-valued keys from objects, recursively.
+   ==================================================================================================== *)
+Definition is_null (j : json) : bool := match j with JNull => true | _ => false end.
+
+Fixpoint strip_nulls (j : json) : json :=
+  match j with
+  | JArr l => JArr (map strip_nulls l)
+  | JObj kv =>
+      JObj ((fix go (kv : list (string * json)) : list (string * json) :=
+               match kv with
+               | [] => []
+               | (k, v) :: r => if is_null v then go r else (k, strip_nulls v) :: go r
+               end) kv)
+  | j => j
+  end.
+
+Fixpoint strip_kv (kv : list (string * json)) : list (string * json) :=
+  match kv with
+  | [] => []
+  | (k, v) :: r => if is_null v then strip_kv r else (k, strip_nulls v) :: strip_kv r
+  end.
+
+Lemma strip_obj kv : strip_nulls (JObj kv) = JObj (strip_kv kv).
+Proof. reflexivity. Qed.
+
+Lemma strip_null_iff j : strip_nulls j = JNull <-> j = JNull.
+Proof. destruct j; simpl; split; intros H; try discriminate; auto. Qed.
+
+Lemma strip_is_null j : is_null (strip_nulls j) = is_null j.
+Proof. destruct j; reflexivity. Qed.
+
+Lemma strip_kv_cons k a b ra rb : strip_nulls a = strip_nulls b -> strip_kv ra = strip_kv rb ->
+  strip_kv ((k, a) :: ra) = strip_kv ((k, b) :: rb).
+Proof.
+  intros Hab Hr. simpl. rewrite <- (strip_is_null a), <- (strip_is_null b), Hab, Hr. reflexivity.
+Qed.
+
+Fixpoint no_obj (lit : cvalue) : bool :=
+  match lit with
+  | CObj _ => false
+  | CList l => forallb no_obj l
+  | _ => true
+  end.
+
+(* a field an object literal may leave out: nullable without default, or with a default of a shape the
+   expression theorem covers that contains no object (its evaluation needs no fuel) *)
+Definition omitted_ok (s : schema) (f : ifdef) : bool :=
+  match i_default f with
+  | None => negb (is_nonnull (i_type f))
+  | Some d => good_default s d (i_type f) && no_obj d
+  end.
+
+Fixpoint good_value_w (s : schema) (lit : cvalue) : gtype -> bool :=
+  fix go (t : gtype) : bool :=
+    match t with
+    | TNonNull t' => match lit with CNull => false | _ => go t' end
+    | TList t' =>
+        match lit with
+        | CNull => true
+        | CList l => forallb (fun x => good_value_w s x t') l
+        | _ => false
+        end
+    | TNamed nm =>
+        match lit with
+        | CNull => true
+        | CObj kv =>
+            match kind_of s nm with
+            | KInput fs =>
+                forallb (fun p => match find_field (fst p) fs with
+                                  | Some f => good_value_w s (snd p) (i_type f)
+                                  | None => false end) kv
+                && forallb (fun f => mem (i_name f) (map fst kv) || omitted_ok s f) fs
+            | _ => false
+            end
+        | _ => leaf_good_v s nm lit
+        end
+    end.
+
+Fixpoint good_default_w (s : schema) (lit : cvalue) : gtype -> bool :=
+  fix go (t : gtype) : bool :=
+    match t with
+    | TNonNull t' => match lit with CNull => false | _ => go t' end
+    | TList t' =>
+        match lit with
+        | CNull => true
+        | CList l => forallb (fun x => good_default_w s x t') l
+        | _ => false
+        end
+    | TNamed nm =>
+        match lit with
+        | CNull => true
+        | CObj _ => good_value_w s lit (TNamed nm)
+        | _ => leaf_good s nm lit
+        end
+    end.
+
+(* evaluation of an object-free default expression does not depend on the fuel *)
+Lemma eval_no_obj_fuel E ft : forall lit, no_obj lit = true ->
+  forall nl no k k', eval k E (const_value_node ft lit nl no) = eval k' E (const_value_node ft lit nl no).
+Proof.
+  apply (cvalue_ind2 (fun lit => no_obj lit = true -> forall nl no k k',
+           eval k E (const_value_node ft lit nl no) = eval k' E (const_value_node ft lit nl no))); intros.
+  1-5: simpl; rewrite !eval_const_eq; reflexivity.
+  - simpl. destruct no; [rewrite !eval_const_eq | rewrite !eval_name_eq]; reflexivity.
+  - assert (L : forall k0, eval k0 E (PList (map (fun x => const_value_node ft x true no) l))
+                 = res_map VList (sequence (map (fun x => eval k E (const_value_node ft x true no)) l))).
+    { intros k0. rewrite eval_list_eq, map_map. f_equal. f_equal. simpl in H0.
+      rewrite forallb_forall in H0. rewrite Forall_forall in H.
+      apply map_ext_in. intros x Hx. apply (H x Hx (H0 x Hx)). }
+    simpl. destruct nl.
+    + rewrite (L k), (L k'). reflexivity.
+    + unfold default_factory. destruct k, k'; reflexivity.
+  - simpl in H0. discriminate.
+Qed.
+
+Lemma good_value_w_leaf s lit : (forall kv, lit <> CObj kv) -> (forall l, lit <> CList l) ->
+  forall t, good_value_w s lit t = good_value s lit t.
+Proof.
+  intros NO NL. induction t as [nm|t IH|t IH]; simpl.
+  - destruct lit; try reflexivity. exfalso. eapply NO. reflexivity.
+  - destruct lit; try reflexivity. exfalso. eapply NL. reflexivity.
+  - destruct lit; try exact IH. reflexivity.
+Qed.
+
+Section ValueModeW.
+Variables (s : schema) (cs : customs) (snake : bool).
+Hypothesis OK : schema_ok snake s = true.
+Let E := env_of s cs snake.
+
+Definition RTVW (lit : cvalue) : Prop :=
+  forall t nb n cv k, n <= k -> good_value_w s lit t = true -> (nb = false -> lit <> CNull) ->
+  coerced_default n s t lit = Some cv ->
+  exists v jd, validate k E (fst (parse_input_field_type s cs t nb)) (json_of_cvalue lit) = Ok v /\
+               dump v = Some jd /\ strip_nulls jd = strip_nulls (json_of_cvalue cv).
+
+Lemma rtvw_leaf lit : (forall kv, lit <> CObj kv) -> (forall l, lit <> CList l) -> RTVW lit.
+Proof.
+  intros NO NL. unfold RTVW. intros t nb n cv k LE G NB C.
+  rewrite (good_value_w_leaf s lit NO NL) in G.
+  destruct (validate_roundtrip s cs snake OK lit t nb n cv k LE G NB C) as [v [Hv Dv]].
+  exists v, (json_of_cvalue cv). auto.
+Qed.
+
+Lemma rtvw_list l : Forall RTVW l -> RTVW (CList l).
+Proof.
+  intros FA. unfold RTVW. intros t; induction t as [nm|t IH|t IH]; intros nb n cv k LE G NB C.
+  - simpl in G. unfold leaf_good_v in G. destruct (kind_of s nm); discriminate.
+  - simpl in G. rewrite cd_list in C. destruct n as [|n']; [discriminate|].
+    destruct k as [|k']; [lia|]. assert (LE' : n' <= k') by lia.
+    destruct (map_opt (coerced_default n' s t) l) as [cvs|] eqn:M; [|discriminate]. inversion C; subst cv.
+    simpl parse_input_field_type. destruct (parse_input_field_type s cs t true) as [sl tn] eqn:PE. simpl fst.
+    rewrite validate_opt_if by (intros _; discriminate). simpl json_of_cvalue. rewrite validate_list, map_map.
+    assert (X : exists vs js, Forall2 (fun r x => r = Ok x)
+                  (map (fun x => validate k' E sl (json_of_cvalue x)) l) vs
+                /\ map_opt dump vs = Some js /\ map strip_nulls js = map strip_nulls (map json_of_cvalue cvs)).
+    { clear C IH NB LE. revert cvs M G. induction FA as [|h r Hh Hr IHr]; intros cvs M G.
+      - simpl in M. inversion M. exists [], []. repeat split; constructor.
+      - simpl in M, G. apply andb_true_iff in G as [G1 G2].
+        destruct (coerced_default n' s t h) as [c|] eqn:Ch; [|discriminate].
+        destruct (map_opt (coerced_default n' s t) r) as [cr|] eqn:Mr; [|discriminate]. inversion M; subst cvs.
+        destruct (Hh t true n' c k' LE' G1 ltac:(discriminate) Ch) as [v [jd [Hv [Dv Sv]]]]. rewrite PE in Hv. simpl in Hv.
+        destruct (IHr cr eq_refl G2) as [vs [js [Hs [Ds Ss]]]].
+        exists (v :: vs), (jd :: js). split; [constructor; assumption|]. split.
+        + simpl. rewrite Dv, Ds. reflexivity.
+        + simpl. rewrite Sv, Ss. reflexivity. }
+    destruct X as [vs [js [Hs [Ds Ss]]]]. rewrite (collect_oks _ _ Hs). simpl.
+    exists (VList vs), (JArr js). split; [reflexivity|]. split.
+    + rewrite dump_list, Ds. reflexivity.
+    + simpl. rewrite Ss. reflexivity.
+  - rewrite cd_nonnull in C. simpl in G. simpl parse_input_field_type.
+    apply (IH false n cv k LE G); [discriminate | exact C].
+Qed.
+
+(* what validate does for a field the object leaves out *)
+Lemma field_result_omitted k' kvj f : 
+  field_input (gen_field s cs snake f) kvj = None ->
+  field_result k' E kvj (gen_field s cs snake f) =
+  match default_body (rhs_default (p_value (gen_field s cs snake f))) with
+  | Some b => keep (gen_field s cs snake f) (eval k' E b)
+  | None => Err EValidation
+  end.
+Proof.
+  intros H. unfold field_result. rewrite H. destruct (rhs_default (p_value (gen_field s cs snake f))); reflexivity.
+Qed.
+
+Lemma rtvw_obj kv : Forall (fun p => RTVW (snd p)) kv -> RTVW (CObj kv).
+Proof.
+  intros FA. unfold RTVW. intros t; induction t as [nm|t IH|t IH]; intros nb n cv k LE G NB C.
+  - simpl in G. rewrite cd_named_obj in C. pose proof (kind_of_lookup s nm) as KL.
+    destruct (kind_of s nm) as [| | | | | |vals|fs|] eqn:K; try discriminate.
+    apply andb_true_iff in G as [G1 G2]. rewrite forallb_forall in G1, G2.
+    destruct n as [|n']; [discriminate|]. destruct k as [|k']; [lia|]. assert (LE' : n' <= k') by lia.
+    destruct (fields_with (fun k0 => lookup k0 kv) (coerced_default n' s) (coerced_default n' s) fs) as [r|] eqn:FW;
+      [|discriminate]. inversion C; subst cv.
+    pose proof (schema_ok_input snake s nm fs OK KL) as NOK.
+    set (kvj := map (fun p => (fst p, json_of_cvalue (snd p))) kv).
+    assert (KK : known_keys fs kvj = true).
+    { unfold known_keys, kvj. apply forallb_forall. intros p Hp. apply in_map_iff in Hp as [p0 [<- Hp0]]. simpl.
+      specialize (G1 p0 Hp0). destruct (find_field (fst p0) fs) as [g|] eqn:FF; [|discriminate].
+      destruct (find_field_some _ _ _ FF) as [Hin Eg]. apply mem_In. rewrite <- Eg. apply in_map. exact Hin. }
+    simpl parse_input_field_type. unfold leaf. rewrite K. simpl fst.
+    rewrite validate_opt_if by (intros _; discriminate). simpl json_of_cvalue. fold kvj.
+    rewrite validate_class. unfold E at 1. simpl e_classes. unfold gen_classes.
+    rewrite (classes_lookup s cs snake s nm fs KL). simpl c_fields. rewrite (effective_gen s cs snake fs NOK).
+    rewrite map_map.
+    assert (X : forall l r', incl l fs ->
+              fields_with (fun k0 => lookup k0 kv) (coerced_default n' s) (coerced_default n' s) l = Some r' ->
+              exists vs jkv, Forall2 (fun rs x => rs = Ok x)
+                           (map (fun f => field_result k' E kvj (gen_field s cs snake f)) l) vs
+                         /\ map_opt entry_dump vs = Some jkv
+                         /\ strip_kv jkv = strip_kv (map (fun p => (fst p, json_of_cvalue (snd p))) r')).
+    { induction l as [|f l IHl]; intros r' INC FWl.
+      - simpl in FWl. inversion FWl. exists [], []. repeat split; constructor.
+      - assert (Hf : In f fs) by (apply INC; left; reflexivity).
+        assert (INC' : incl l fs) by (intros x Hx; apply INC; right; exact Hx).
+        assert (FI : field_input (gen_field s cs snake f) kvj = option_map json_of_cvalue (lookup (i_name f) kv)).
+        { rewrite (field_input_gen s cs snake fs kvj f NOK KK Hf). unfold kvj. apply jlookup_map. }
+        simpl in FWl. destruct (lookup (i_name f) kv) as [x|] eqn:Lx.
+        + (* the literal gives the field *)
+          destruct (coerced_default n' s (i_type f) x) as [vc|] eqn:Cx; [|discriminate].
+          destruct (fields_with (fun k0 => lookup k0 kv) (coerced_default n' s) (coerced_default n' s) l) as [rl|] eqn:Fl;
+            [|discriminate]. inversion FWl; subst r'.
+          destruct (IHl rl INC' eq_refl) as [vs [jkv [Hs [Ds Ss]]]].
+          pose proof (lookup_in _ _ _ Lx) as INx.
+          pose proof (G1 _ INx) as Gx. simpl in Gx. rewrite (find_field_self snake fs f NOK Hf) in Gx.
+          rewrite Forall_forall in FA. pose proof (FA _ INx) as Px. simpl in Px.
+          destruct (Px (i_type f) true n' vc k' LE' Gx ltac:(discriminate) Cx) as [v [jd [Hv [Dv Sv]]]].
+          exists ((p_name (gen_field s cs snake f), (i_name f, v)) :: vs), ((i_name f, jd) :: jkv). split; [|split].
+          * constructor; [|exact Hs]. unfold field_result. rewrite FI. simpl.
+            rewrite gen_field_ann, Hv. unfold keep. simpl. unfold wire_of. rewrite gen_field_wire. reflexivity.
+          * simpl. unfold entry_dump at 1. simpl. rewrite Dv. simpl. rewrite Ds. reflexivity.
+          * simpl map. apply strip_kv_cons; assumption.
+        + (* the literal leaves the field out *)
+          pose proof (G2 f Hf) as Gf. apply orb_true_iff in Gf as [Gf|Gf].
+          { exfalso. destruct (lookup_mem _ _ Gf) as [x Lx']. congruence. }
+          unfold omitted_ok in Gf.
+          assert (FR := field_result_omitted k' kvj f ltac:(rewrite FI; reflexivity)).
+          rewrite gen_field_default in FR. unfold field_default_value in FR.
+          destruct (i_default f) as [d|] eqn:D.
+          * (* schema default: the class default evaluates to its coerced value *)
+            apply andb_true_iff in Gf as [Gd Nd].
+            destruct (coerced_default n' s (i_type f) d) as [vc|] eqn:Cd; [|discriminate].
+            destruct (fields_with (fun k0 => lookup k0 kv) (coerced_default n' s) (coerced_default n' s) l) as [rl|] eqn:Fl;
+              [|discriminate]. inversion FWl; subst r'.
+            destruct (IHl rl INC' eq_refl) as [vs [jkv [Hs [Ds Ss]]]].
+            rewrite top_level_body in FR.
+            destruct (roundtrip_nested s cs snake OK d (i_type f) n' vc (S n') ltac:(lia) Gd Cd) as [v [Hv Dv]].
+            rewrite (eval_no_obj_fuel E _ d Nd true false k' (S n')) in FR. fold E in Hv. rewrite Hv in FR.
+            exists ((p_name (gen_field s cs snake f), (i_name f, v)) :: vs), ((i_name f, json_of_cvalue vc) :: jkv).
+            split; [|split].
+            -- constructor; [|exact Hs]. rewrite FR. unfold keep. simpl. unfold wire_of. rewrite gen_field_wire. reflexivity.
+            -- simpl. unfold entry_dump at 1. simpl. rewrite Dv. simpl. rewrite Ds. reflexivity.
+            -- simpl map. apply strip_kv_cons; [reflexivity | exact Ss].
+          * (* nullable without default: None on the instance, no key in the coerced default *)
+            apply negb_true_iff in Gf. rewrite Gf in FWl, FR. simpl in FR.
+            destruct (IHl r' INC' FWl) as [vs [jkv [Hs [Ds Ss]]]].
+            rewrite eval_const_eq in FR.
+            exists ((p_name (gen_field s cs snake f), (i_name f, VNone)) :: vs), ((i_name f, JNull) :: jkv).
+            split; [|split].
+            -- constructor; [|exact Hs]. rewrite FR. unfold keep. simpl. unfold wire_of. rewrite gen_field_wire. reflexivity.
+            -- simpl. rewrite Ds. reflexivity.
+            -- simpl. exact Ss. }
+    destruct (X fs r (incl_refl fs) FW) as [vs [jkv [Hs [Ds Ss]]]].
+    rewrite (collect_oks _ _ Hs). simpl. eexists. exists (JObj jkv). split; [reflexivity|]. split.
+    + rewrite dump_model, Ds. reflexivity.
+    + change (json_of_cvalue (CObj r)) with (JObj (map (fun p => (fst p, json_of_cvalue (snd p))) r)).
+      rewrite !strip_obj. rewrite Ss. reflexivity.
+  - simpl in G. discriminate.
+  - rewrite cd_nonnull in C. simpl in G. simpl parse_input_field_type.
+    apply (IH false n cv k LE G); [discriminate | exact C].
+Qed.
+
+Theorem validate_roundtrip_modulo_null : forall lit, RTVW lit.
+Proof.
+  apply cvalue_ind2; intros;
+    try (apply rtvw_leaf; [intros; discriminate | intros; discriminate]).
+  - apply rtvw_list; assumption.
+  - apply rtvw_obj; assumption.
+Qed.
+End ValueModeW.
+
+Lemma good_default_w_leaf s lit : (forall kv, lit <> CObj kv) -> (forall l, lit <> CList l) ->
+  forall t, good_default_w s lit t = good_default s lit t.
+Proof.
+  intros NO NL. induction t as [nm|t IH|t IH]; simpl.
+  - destruct lit; try reflexivity. exfalso. eapply NO. reflexivity.
+  - destruct lit; try reflexivity. exfalso. eapply NL. reflexivity.
+  - destruct lit; try exact IH. reflexivity.
+Qed.
+
+Section RoundtripW.
+Variables (s : schema) (cs : customs) (snake : bool).
+Hypothesis OK : schema_ok snake s = true.
+Let E := env_of s cs snake.
+Let ftn t := snd (parse_input_field_type s cs t true).
+
+Definition RTW (lit : cvalue) : Prop :=
+  forall t n cv k, n < k -> good_default_w s lit t = true -> coerced_default n s t lit = Some cv ->
+  exists v jd, eval k E (const_value_node (ftn t) lit true false) = Ok v /\ dump v = Some jd /\
+               strip_nulls jd = strip_nulls (json_of_cvalue cv).
+
+Lemma rtw_leaf lit : (forall kv, lit <> CObj kv) -> (forall l, lit <> CList l) -> RTW lit.
+Proof.
+  intros NO NL. unfold RTW. intros t n cv k LT G C. rewrite (good_default_w_leaf s lit NO NL) in G.
+  destruct (roundtrip_nested s cs snake OK lit t n cv k LT G C) as [v [Hv Dv]].
+  exists v, (json_of_cvalue cv). auto.
+Qed.
+
+Lemma rtw_list l : Forall RTW l -> RTW (CList l).
+Proof.
+  intros FA. unfold RTW. intros t; induction t as [nm|t IH|t IH]; intros n cv k LT G C.
+  - simpl in G. unfold leaf_good in G. destruct (kind_of s nm); discriminate.
+  - simpl in G. rewrite cd_list in C. destruct n as [|n']; [discriminate|].
+    assert (LT' : n' < k) by lia.
+    destruct (map_opt (coerced_default n' s t) l) as [cvs|] eqn:M; [|discriminate]. inversion C; subst cv.
+    simpl const_value_node. rewrite eval_list_eq. rewrite map_map.
+    unfold ftn. rewrite ftn_list. fold (ftn t).
+    assert (X : exists vs js, Forall2 (fun r x => r = Ok x)
+                  (map (fun x => eval k E (const_value_node (ftn t) x true false)) l) vs
+                /\ map_opt dump vs = Some js /\ map strip_nulls js = map strip_nulls (map json_of_cvalue cvs)).
+    { clear C IH LT. revert cvs M G. induction FA as [|h r Hh Hr IHr]; intros cvs M G.
+      - simpl in M. inversion M. exists [], []. repeat split; constructor.
+      - simpl in M, G. apply andb_true_iff in G as [G1 G2].
+        destruct (coerced_default n' s t h) as [c|] eqn:Ch; [|discriminate].
+        destruct (map_opt (coerced_default n' s t) r) as [cr|] eqn:Mr; [|discriminate]. inversion M; subst cvs.
+        destruct (Hh t n' c k LT' G1 Ch) as [v [jd [Hv [Dv Sv]]]].
+        destruct (IHr cr eq_refl G2) as [vs [js [Hs [Ds Ss]]]].
+        exists (v :: vs), (jd :: js). split; [constructor; assumption|]. split.
+        + simpl. rewrite Dv, Ds. reflexivity.
+        + simpl. rewrite Sv, Ss. reflexivity. }
+    destruct X as [vs [js [Hs [Ds Ss]]]]. rewrite (sequence_oks _ _ Hs). simpl res_map.
+    exists (VList vs), (JArr js). split; [reflexivity|]. split.
+    + rewrite dump_list, Ds. reflexivity.
+    + simpl. rewrite Ss. reflexivity.
+  - simpl in G. rewrite cd_nonnull in C.
+    destruct (IH n cv k LT G C) as [x [jd [H1 H2]]]. exists x, jd. split; [|exact H2].
+    unfold ftn in *. rewrite ftn_nonnull. exact H1.
+Qed.
+
+Lemma rtw_obj kv : RTW (CObj kv).
+Proof.
+  unfold RTW. intros t; induction t as [nm|t IH|t IH]; intros n cv k LT G C.
+  - simpl in G. pose proof G as G0. destruct (kind_of s nm) as [| | | | | |vals|fs|] eqn:K; try discriminate.
+    assert (FT : ftn (TNamed nm) = nm) by (unfold ftn; simpl; unfold leaf; rewrite K; reflexivity).
+    rewrite FT. change (const_value_node nm (CObj kv) true false)
+      with (PValidate nm (const_value_node nm (CObj kv) true true)).
+    rewrite eval_validate_eq. destruct (dict_expr_denotes E nm (CObj kv) k) as [vd [Hd Jd]]. rewrite Hd, Jd.
+    destruct k as [|k']; [lia|].
+    assert (GV : good_value_w s (CObj kv) (TNonNull (TNamed nm)) = true) by (simpl; rewrite K; exact G0).
+    assert (CV : coerced_default n s (TNonNull (TNamed nm)) (CObj kv) = Some cv) by (rewrite cd_nonnull; exact C).
+    destruct (validate_roundtrip_modulo_null s cs snake OK (CObj kv) (TNonNull (TNamed nm)) true n cv k'
+                ltac:(lia) GV ltac:(discriminate) CV) as [v [jd [Hv Dv]]].
+    simpl parse_input_field_type in Hv. unfold leaf in Hv. rewrite K in Hv. simpl in Hv.
+    exists v, jd. split; [exact Hv | exact Dv].
+  - simpl in G. discriminate.
+  - simpl in G. rewrite cd_nonnull in C.
+    destruct (IH n cv k LT G C) as [x [jd [H1 H2]]]. exists x, jd. split; [|exact H2].
+    unfold ftn in *. rewrite ftn_nonnull. exact H1.
+Qed.
+
+Lemma roundtrip_nested_w : forall lit, RTW lit.
+Proof.
+  apply cvalue_ind2; intros;
+    try (apply rtw_leaf; [intros; discriminate | intros; discriminate]).
+  - apply rtw_list; assumption.
+  - apply rtw_obj.
+Qed.
+
+(* the default of a field, for object literals that may omit fields: equal to the coerced schema default
+   modulo absent == null *)
+Theorem default_roundtrip_modulo_null f lit n cv k :
+  i_default f = Some lit -> good_default_w s lit (i_type f) = true ->
+  coerced_default n s (i_type f) lit = Some cv -> n < k ->
+  exists b v jd, default_body (rhs_default (p_value (gen_field s cs snake f))) = Some b /\
+                 eval k E b = Ok v /\ dump v = Some jd /\
+                 strip_nulls jd = strip_nulls (json_of_cvalue cv).
+Proof.
+  intros D G C LT. rewrite gen_field_default. unfold field_default_value. rewrite D.
+  rewrite top_level_body.
+  destruct (roundtrip_nested_w lit (i_type f) n cv k LT G C) as [v [jd [H1 [H2 H3]]]].
+  eexists. exists v, jd. split; [reflexivity|]. auto.
+Qed.
+End RoundtripW.
+
+(* ---------- a checkable sufficient condition for defaults_ok (the guard of accepts => validate) ---------- *)
+Definition is_some {X} (o : option X) : bool := match o with Some _ => true | None => false end.
+
+Fixpoint lit_depth (lit : cvalue) : nat :=
+  match lit with
+  | CList l => S (fold_right (fun x a => Nat.max (lit_depth x) a) 0 l)
+  | CObj kv => S (fold_right (fun p a => Nat.max (lit_depth (snd p)) a) 0 kv)
+  | _ => 0
+  end.
+
+(* every schema default is of a proved shape, contains no object literal, and is a valid literal of its type *)
+Definition simple_field_default (s : schema) (f : ifdef) : bool :=
+  match i_default f with
+  | None => true
+  | Some d => good_default s d (i_type f) && no_obj d && is_some (coerced_default (S (lit_depth d)) s (i_type f) d)
+  end.
+Definition simple_defaults (s : schema) : bool :=
+  forallb (fun d => match snd d with DInput fs => forallb (simple_field_default s) fs | _ => true end) s.
+
+Lemma effective_incl fs f : In f (effective fs) -> In f fs.
+Proof.
+  induction fs as [|h r IH]; simpl; [auto|].
+  destruct (existsb (fun g => p_name g =? p_name h) r); simpl; intros H; [right; auto|].
+  destruct H as [<-|H]; auto.
+Qed.
+
+Lemma gen_classes_in s0 cs snake s cl : In cl (gen_classes_of s0 cs snake s) ->
+  exists nm fs, In (nm, DInput fs) s /\ cl = gen_class s0 cs snake nm fs.
+Proof.
+  induction s as [|[k d] r IH]; simpl; [contradiction|].
+  destruct d as [|v|fs]; simpl; intros H.
+  - destruct (IH H) as [nm [fs [A B]]]. eauto.
+  - destruct (IH H) as [nm [fs [A B]]]. eauto.
+  - destruct H as [<-|H]; [eauto|]. destruct (IH H) as [nm [fs0 [A B]]]. eauto.
+Qed.
+
+Theorem simple_defaults_ok s cs snake : schema_ok snake s = true -> simple_defaults s = true ->
+  forall n, defaults_ok n (env_of s cs snake).
+Proof.
+  intros OK SD n m cl pf e _ Hcl Hpf He. simpl in Hcl. unfold gen_classes in Hcl.
+  destruct (gen_classes_in s cs snake s cl Hcl) as [nm [fs [Hin ->]]].
+  apply effective_incl in Hpf. simpl in Hpf. apply in_map_iff in Hpf as [f [<- Hf]].
+  unfold simple_defaults in SD. rewrite forallb_forall in SD. specialize (SD _ Hin). simpl in SD.
+  rewrite forallb_forall in SD. specialize (SD f Hf). unfold simple_field_default in SD.
+  assert (B : default_body (rhs_default (p_value (gen_field s cs snake f))) = Some e)
+    by (destruct He as [-> | ->]; reflexivity).
+  rewrite gen_field_default in B. unfold field_default_value in B.
+  destruct (i_default f) as [d|].
+  - apply andb_true_iff in SD as [SD CD]. apply andb_true_iff in SD as [GD ND].
+    destruct (coerced_default (S (lit_depth d)) s (i_type f) d) as [cv|] eqn:C; [|discriminate].
+    rewrite top_level_body in B. inversion B; subst e.
+    destruct (roundtrip_nested s cs snake OK d (i_type f) (S (lit_depth d)) cv (S (S (lit_depth d))) ltac:(lia) GD C) as [v [Hv _]].
+    exists v. rewrite (eval_no_obj_fuel _ _ d ND true false m (S (S (lit_depth d)))). exact Hv.
+  - destruct (negb (is_nonnull (i_type f)) || is_opt (fst (parse_input_field_type s cs (i_type f) true)));
+      [|discriminate]. simpl in B. inversion B; subst e. exists VNone. apply eval_const_eq.
+Qed.
